@@ -407,12 +407,12 @@ Step(S, I, E) ==
                      ELSE IF st0 < 0 \/ en0 < 0 THEN Unspec(S, "operand outside the modelled domain")
                      ELSE IF E.newid <= 0 THEN Ok(Adv(Push(PopN(S, 3), RefV(TArr, -3)), I))
                      ELSE Ok(Adv(Push(Alloc(PopN(S, 3), E.newid, Obj(TArr, S.heap[arr.o].m[1], 0, IF en <= st THEN <<>> ELSE SubSeq(vs, st + 1, en))), RefV(TArr, E.newid)), I)))
-     [] op = "ARR_REMOVE" ->        \* an index past the end removes nothing
-          Need(S, 2, LET arr == Peek(S, 1)  i == IF Top(S).t = TInt THEN SmallNat(Top(S)) ELSE 0 IN
+     [] op = "ARR_REMOVE" ->        \* bounds-checked like ARR_GET / ARR_SET: every index outside [0, length) stops the program
+          Need(S, 2, LET arr == Peek(S, 1)  i == IF Top(S).t = TInt THEN SmallNat(Top(S)) ELSE -1 IN
                      IF arr.t # TArr THEN TrapR(S, ErrType) ELSE IF ~Known(S, arr, TArr) THEN Unspec(S, "operand is not a live object")
-                     ELSE IF i < 0 THEN Unspec(S, "operand outside the modelled domain")
                      ELSE LET vs == S.heap[arr.o].v IN
-                          Ok(Adv(Push([PopN(S, 2) EXCEPT !.heap[arr.o].v = IF i >= Len(vs) THEN vs ELSE SubSeq(vs, 1, i) \o SubSeq(vs, i + 2, Len(vs))], arr), I)))
+                          IF i < 0 \/ i >= Len(vs) THEN TrapR(S, ErrBounds)
+                          ELSE Ok(Adv(Push([PopN(S, 2) EXCEPT !.heap[arr.o].v = SubSeq(vs, 1, i) \o SubSeq(vs, i + 2, Len(vs))], arr), I)))
      \* ---- structs, unions, enums, tuples
      [] op = "STRUCT_NEW" -> Build(S, I, E, TStruct, a[1], 0, 0)
      [] op = "STRUCT_LITERAL" -> Build(S, I, E, TStruct, a[1], 0, a[2])
@@ -452,7 +452,8 @@ Step(S, I, E) ==
                                 [] v.t = TStr -> WildV(TInt)                           \* strtoll
                                 [] OTHER -> IntV(I64Zero)))
      [] op = "CAST_FLOAT" -> Need(S, 1, Un(S, I, IF Top(S).t = TFloat THEN Top(S) ELSE WildV(TFloat)))
-     [] op = "CAST_BOOL" -> Need(S, 1, Un(S, I, BoolV(Truthy(Top(S)))))
+     [] op = "CAST_BOOL" -> Need(S, 1, Un(S, I, BoolV(IF Top(S).t = TStr THEN Top(S).o # -2 /\ Top(S).n # I64Zero   \* STDLIB cast_bool: an empty string is false
+                                                           ELSE Truthy(Top(S)))))
      [] op = "CAST_STRING" ->
           Need(S, 1, LET v == Top(S) IN
                      Un(S, I, CASE v.t = TStr -> v
